@@ -262,6 +262,32 @@ func ownCheck(mode string, t reflect.Type, v reflect.Value, doc []byte) string {
 		}
 		// the value that was encoded must not have been written to either
 		return "ok"
+	case mode == "longkeys":
+		// object keys of 1..200 bytes with upper-case letters that match no field exactly: the case-insensitive lookup
+		// lower-cases them — in a scratch buffer, never in the caller's input
+		type tgt struct {
+			A   int
+			Key string
+		}
+		for n := 1; n <= 200; n += 1 + n/40 {
+			d := []byte(`{"` + strings.Repeat("K", n) + `":1,"KEY":"v","` + strings.Repeat("aB", n/2+1) + `":{"X":[1]}}`)
+			in2 := append([]byte{}, d...)
+			var t1 tgt
+			json.Unmarshal(in2, &t1)
+			if !bytes.Equal(in2, d) {
+				return fmt.Sprintf("input-modified key-length-%d", n)
+			}
+			in3 := append([]byte{}, d...)
+			dec := json.NewDecoder(bytes.NewReader(in3))
+			dec.Decode(&t1)
+			if !bytes.Equal(in3, d) {
+				return fmt.Sprintf("decoder-input-modified key-length-%d", n)
+			}
+			if t1.Key != "v" {
+				return "case-insensitive-match-lost"
+			}
+		}
+		return "ok"
 	case mode == "tokenizer":
 		tk := json.NewTokenizer(in)
 		for tk.Next() {
@@ -391,4 +417,5 @@ func runC10(h *H) {
 	for i := 0; i < 3; i++ {
 		h.DoRisky("json.own", strconv.Itoa(i), "marshalbig")
 	}
+	h.DoRisky("json.own", "0", "longkeys")
 }
